@@ -96,39 +96,40 @@ Definition in_finding_domain (w : world) (o : op) : bool :=
   | _ => false
   end.
 
-(* walk the case.  [mw] = model world while model and implementation still agree *)
-Fixpoint walk (mw : option world) (st : aslots) (ops : list op) (outs : list (list Z)) (crashed : bool) (agree : bool) : Z :=
+(* walk the case.  [mw] = model world while model and implementation still agree; [k] = index of the operation.
+   Verdicts 2 and 4 carry the index of the failing operation: verdict + 10 * k *)
+Fixpoint walk (mw : option world) (st : aslots) (ops : list op) (outs : list (list Z)) (crashed : bool) (agree : bool) (k : Z) : Z :=
   match ops with
-  | [] => if crashed then 2 else if agree && match outs with [] => true | _ => false end then 0 else 1
+  | [] => if crashed then 2 + 10 * k else if agree && match outs with [] => true | _ => false end then 0 else 1
   | o :: ops' =>
       match outs with
       | [] =>     (* no (complete) output for this operation *)
           if crashed then
             match mw with
-            | Some w => if in_finding_domain w o && match exec_op w o with None => true | Some _ => false end then 4 else 2
-            | None => 2
+            | Some w => if in_finding_domain w o && match exec_op w o with None => true | Some _ => false end then 4 + 10 * k else 2 + 10 * k
+            | None => 2 + 10 * k
             end
-          else 2
+          else 2 + 10 * k
       | out :: outs' =>
           let '(ok, st') := prop_op st o out in
           if negb ok then
-            match mw with Some w => if in_finding_domain w o then 4 else 2 | None => 2 end
+            match mw with Some w => if in_finding_domain w o then 4 + 10 * k else 2 + 10 * k | None => 2 + 10 * k end
           else
             match mw with
             | Some w =>
                 match exec_op w o with
-                | Some (w', mout) => if zlist_eqb mout out then walk (Some w') st' ops' outs' crashed agree
-                                     else walk None st' ops' outs' crashed false
-                | None => walk None st' ops' outs' crashed false
+                | Some (w', mout) => if zlist_eqb mout out then walk (Some w') st' ops' outs' crashed agree (k + 1)
+                                     else walk None st' ops' outs' crashed false (k + 1)
+                | None => walk None st' ops' outs' crashed false (k + 1)
                 end
-            | None => walk None st' ops' outs' crashed false
+            | None => walk None st' ops' outs' crashed false (k + 1)
             end
       end
   end.
 
 Definition judge_seq (c : nat * list op * list (list Z) * bool) : Z :=
   let '(nslots, ops, outs, crashed) := c in
-  walk (Some (init_world nslots)) (repeat None nslots) ops outs crashed true.
+  walk (Some (init_world nslots)) (repeat None nslots) ops outs crashed true 0.
 
 (* ---- concurrent grow_by: the ranges handed out, sorted by start, tile [p0, total) *)
 Fixpoint cover_from (p : Z) (l : list (Z * Z)) : option Z :=
